@@ -111,6 +111,7 @@ class World(w_fsa.World):
         self.reps = {}
         self.memos = {}          # id -> (dict object, class tuple, nfills)
         self.fsa_version = Counter()
+        self.start_version = Counter()     # bumped only by changes of the start list
         self.touched_fsa = set()  # automata mutated or derived in this run
         self._nt = False
 
@@ -288,7 +289,7 @@ class Engine(w_fsa.Engine):
         for m, v in sorted(world.memos.items()):
             rid, rver, hid, hver, maxlen, with_words, mode, edge_words = v[1]
             if rid in world.reps and world.reps[rid].version == rver and hid in world.handles \
-                    and world.fsa_version[hid] == hver:
+                    and hver == (world.fsa_version[hid], world.start_version[hid] if mode == "end" else 0):
                 valid.append(m)
         if not valid:
             return None
@@ -372,11 +373,16 @@ class Engine(w_fsa.Engine):
     def _memo_class(self, world, op):
         rh = world.reps[op["rep"]]
         mode = "end" if op["mode"] == "end" else "start"
-        return (rh.id, rh.version, op["h"], world.fsa_version[op["h"]], bool(op["maxlen"]),
+        # entries (length, state) of a forward walk do not depend on the start list; those of a
+        # backward walk (end_state) do
+        sv = world.start_version[op["h"]] if mode == "end" else 0
+        return (rh.id, rh.version, op["h"], (world.fsa_version[op["h"]], sv), bool(op["maxlen"]),
                 bool(op["with_words"]), mode, bool(op["edge_words"]))
 
     # ------------------------------------------------------------------ interpreter
     def apply(self, world, op):
+        if world.cfg.get("vkind") == "tuple":
+            op = self._devertex(op)
         k = op["op"]
         if k in ("rep_new", "assign", "enum", "free"):
             world.steps_done += 1
@@ -386,7 +392,10 @@ class Engine(w_fsa.Engine):
             return outcome, vs
         outcome, vs = super().apply(world, op)
         if not outcome.startswith("skipped"):
-            if k in w_fsa.MUTATE:
+            if k in ("set_starts", "starts_inplace"):
+                world.start_version[op["h"]] += 1
+                world.touched_fsa.add(op["h"])
+            elif k in w_fsa.MUTATE:
                 world.fsa_version[op["h"]] += 1
                 world.touched_fsa.add(op["h"])
             if k in w_fsa.DERIVE and op.get("new") in world.handles:
